@@ -111,10 +111,20 @@ def oracle_queries(circ, qs, ans):
                 if path != ".".join(map(str, want)):
                     bad.append(("query:reg_gate_history", f"reg_gate_history({k}) = {path}, wire = {want}"))
         elif f[0] == "x":
+            # the property demands soundness only: an edge the circuit does NOT report must be free of paths
+            # head(first) ->* tail(e) and head(e) ->* tail(first); (equality with the defined set is a correspondence matter)
             e = du.parse_edge(f[1])
-            want = du.emp(".".join(sorted(du.edge_str(x) for x in du.ref_incompatible(circ, e))))
-            if val != want:
-                bad.append(("query:find_incompatible_edges", f"find_incompatible_edges({f[1]}) = {val}, defined set = {want}"))
+            if val.startswith("!"):
+                continue
+            reported = set() if val == "*" else set(val.split("."))
+            if du.edge_str(e) not in reported:
+                bad.append(("query:find_incompatible_edges", f"find_incompatible_edges({f[1]}) does not contain the edge itself"))
+            for e2 in [x for t in "epc" for x in circ.edge_dict.get(t, [])]:
+                if du.edge_str(e2) in reported:
+                    continue
+                if du.reach(circ, e[1], e2[0]) or du.reach(circ, e2[1], e[0]):
+                    bad.append(("query:find_incompatible_edges", f"find_incompatible_edges({f[1]}) reports {du.edge_str(e2)} compatible although a path closes a cycle"))
+                    break
         elif f[0] == "l":
             labs = [] if f[1] == "*" else f[1].split(".")
             g = circ.dag
@@ -222,8 +232,10 @@ def shrink(init, tokens, key, budget_s=8.0):
 def report_violation(res, hist, step, key, clause):
     toks = hist.tokens[:step + 1]
     small = shrink(hist.init, toks, key) if not key.startswith("query:") else toks
-    res.violation(key, clause, input={"ne": hist.init[0], "np": hist.init[1], "nc": hist.init[2], "edits": small},
-                  original_length=len(toks))
+    inp = {"ne": hist.init[0], "np": hist.init[1], "nc": hist.init[2], "edits": small}
+    if key.startswith("query:") and step < len(hist.qs):
+        inp["queries_after_last_edit"] = hist.qs[step]
+    res.violation(key, clause, input=inp, original_length=len(toks))
 
 
 def note_finding(res, h):
@@ -543,6 +555,9 @@ def replay(ctx, data):
                         bad.append(("query:register_depth", f"{rd} vs {ref[1]}"))
             except Exception as e:  # noqa: BLE001
                 bad.append(("query:raises", repr(e)))
+        if i == len(inp["edits"]) - 1 and inp.get("queries_after_last_edit"):
+            qs = inp["queries_after_last_edit"]
+            bad += oracle_queries(circ, qs, du.answers(circ, qs))
         print(f"  {t:60s} -> {err or 'ok'}" + (f"   ORACLE FAILS: {bad[0]}" if bad else ""))
         if bad:
             ok = False
